@@ -195,6 +195,8 @@ pub use error::Result;
 
 mod host;
 use host::Host;
+#[cfg(feature = "verif-hooks")]
+pub use host::VerifHostTables;
 
 mod ip;
 pub use ip::IpVersion;
